@@ -1,0 +1,19 @@
+//go:build !verif
+
+package dns
+
+import "net"
+
+// Verification hooks are compiled out: see verif_on.go (build tag "verif").
+// Every function here is empty or constant, takes only values that are already at
+// hand at the call site, and is inlined away.  Call sites name events by string
+// literal; the literals are listed as constants in verif_on.go.
+
+func vhook(ev string, srv *Server, a, b uintptr) {}
+
+func vconn(c net.Conn) uintptr        { return 0 }
+func vpconn(c net.PacketConn) uintptr { return 0 }
+func vbuf(m []byte) uintptr           { return 0 }
+func vbool(b bool) uintptr            { return 0 }
+func verr(err error) uintptr          { return 0 }
+func vwconn(w *response) uintptr      { return 0 }
